@@ -287,9 +287,11 @@ def compare_struct(corpus, k, iobs, mobs):
 
 
 def struct_coverage():
-    return {"structural_tie": {"what": "the real generated EnumString code (tokens read by harness/genprobe: phf entries, match arms in order, "
-                                       "fall-through, error type, TryFrom delegation) compared with the model's from_str_code; literals of the REAL code "
-                                       "are fed back as inputs (guided search); a structural difference alone is not reported",
+    return {"structural_tie": {"what": "translation of the REAL generated tokens (harness/genprobe `struct`) compared with the model's description of the "
+                                       "generated code — EnumString: phf entries, match arms in order, fall-through, error type, TryFrom delegation (literals of "
+                                       "the real code are fed back as inputs: guided search); EnumIter: the bodies of nth / next_back / size_hint translated into "
+                                       "the deep-embedded language of Model/IterProg.v (proved equal to it_nth / it_next_back / it_len) and the constructor "
+                                       "table of get. A structural difference alone is recorded, not reported",
                                "definitions_checked": STRUCT_STATS["checked"], "identical": STRUCT_STATS["matched"],
                                "not_readable": STRUCT_STATS["unparsed"], "different": STRUCT_STATS["mismatched"]}}
 
